@@ -90,3 +90,18 @@ def _(self):
     modifies()
     ensures(result != None and len(result) == self.g_last.g_pos - self.g_first.g_pos + 1
             and forall(lambda k: implies(0 <= k and k < len(result), result[k] == sel(self.g_ts.g_view, self.g_first.g_pos + k)), result[k]))
+
+# ---- token equality and hash (C20): pure functions of (RULE, current raw text); equal tokens hash equally
+# rule_of(t): the class constant RULE of t's class (uninterpreted per object: type(self).RULE / self.RULE / other.RULE all read it)
+@contract('RawTokenModel.__eq__')
+def _(self, other):
+    types(other='RawTokenModel')
+    requires(self != None)
+    modifies()
+    ensures(result == (other != None and self.RULE == other.RULE and self._raw_text == other._raw_text))
+
+@contract('RawTokenModel.__hash__')
+def _(self):
+    requires(self != None)
+    modifies()
+    ensures(result == str_hash(self.RULE, self._raw_text))
